@@ -67,9 +67,12 @@ def row_scales(m, rows):
     return [float(i + 1) for i in range(m)]
 
 
-def run_impl(entry, m, k, retain, novmap, rows="normal"):
+def run_impl(entry, m, k, retain, novmap, rows="normal", aux=False):
     log = []
     x = torch.tensor([1.0, 2.0, 3.0], dtype=torch.float64, requires_grad=True)
+    # aux: a parameter of the SAME SHAPE as x that is not in the graph, listed explicitly (in front of x): it
+    # gets zeros in every row, and must not take x with it in any sweep
+    w_aux = torch.tensor([5.0, 6.0, 7.0], dtype=torch.float64, requires_grad=True)
     h = x * 2
     if novmap:
         h = NoVmap.apply(h)
@@ -89,10 +92,11 @@ def run_impl(entry, m, k, retain, novmap, rows="normal"):
                     t = t.reshape(2, p // 2)
                 outs.append(t)
                 s += p
-            backward(outs, Constant(w), retain_graph=retain, parallel_chunk_size=k)
+            backward(outs, Constant(w), retain_graph=retain, parallel_chunk_size=k,
+                     **({"inputs": [w_aux, x]} if aux else {}))
             expected = 2 * (w @ W)
-            res["grads"] = x.grad.tolist()
-            res["expected"] = expected.tolist()
+            res["grads"] = x.grad.tolist() + (w_aux.grad.tolist() if aux else [])
+            res["expected"] = expected.tolist() + ([0.0, 0.0, 0.0] if aux else [])
         else:
             f1, f2 = h[:2] * 3, h[2:] * 3
             pvl = row_scales(m, rows)
@@ -100,12 +104,12 @@ def run_impl(entry, m, k, retain, novmap, rows="normal"):
             f = torch.cat([f1, f2])
             losses = [(W[i] @ f) * ps[i] for i in range(m)]
             mtl_backward(losses, [f1, f2], Constant(w), retain_graph=retain,
-                         parallel_chunk_size=k)
+                         parallel_chunk_size=k, **({"shared_params": [w_aux, x]} if aux else {}))
             pv = torch.tensor(pvl, dtype=torch.float64)
             expected = 6 * ((w * pv) @ W)
-            res["grads"] = x.grad.tolist() + [float(p.grad) for p in ps]
+            res["grads"] = x.grad.tolist() + [float(p.grad) for p in ps] + (w_aux.grad.tolist() if aux else [])
             fv = torch.tensor([6.0, 12.0, 18.0], dtype=torch.float64)
-            res["expected"] = expected.tolist() + (W @ fv).tolist()
+            res["expected"] = expected.tolist() + (W @ fv).tolist() + ([0.0, 0.0, 0.0] if aux else [])
     except Exception as e:  # noqa: BLE001
         res["error"] = type(e).__name__
     res["sweeps"] = log
@@ -157,7 +161,7 @@ def judge(chk, case, plan, novmap, res, rows="normal"):
             bad = f"{entry} m={m} k={k}: sweep sizes {obs} are not <= k covering m rows"
         elif (k == 1 or m == 1) and any(b for b, _ in obs):
             bad = f"{entry} m={m} k={k}: batched (vmap) differentiation used although sequential"
-        elif any(abs(a - b) > 1e-9 * max(abs(b), 1.0 if rows == "normal" else 0.0) for a, b in zip(res["grads"], res["expected"])):
+        elif any(abs(a - b) > 1e-9 * max(abs(b), 1.0 if rows.startswith("normal") else 0.0) for a, b in zip(res["grads"], res["expected"])):
             bad = f"{entry} m={m} k={k} ({rows} rows): update {res['grads']} differs from {res['expected']}"
     if bad and rows != "normal" and "sweeps" in bad:
         bad += f" ({rows} rows: every second loss has a zero / 2^-600-scaled gradient w.r.t. the features)"
@@ -196,6 +200,10 @@ def run(chk):
                       nontrivial=True)
             chk.note("novmap_runs")
             judge(chk, case, plan, True, res2)
+        if m >= 2 and (m + (0 if k is None else k)) % 2 == 0:
+            res4 = run_impl(entry, m, k, retain, False, "normal", aux=True)
+            chk.note("aux_same_shape_unused_input")
+            judge(chk, case, plan, False, res4, "normal+aux")
         if entry == "mtl_backward" and m >= 2:
             # rows of the Jacobian that are exactly zero or tiny are rows all the same: same sweeps, and a
             # relative comparison of the update (the all-tiny variant has nothing else to hide behind)
@@ -213,7 +221,9 @@ def run(chk):
 def replay(chk, obj):
     case = (obj["entry"], obj["m"], obj["k"], obj["retain"])
     plans = model_plans([case])
-    res = run_impl(obj["entry"], obj["m"], obj["k"], obj["retain"], obj.get("novmap", False), obj.get("rows", "normal"))
+    rows_ = obj.get("rows", "normal")
+    res = run_impl(obj["entry"], obj["m"], obj["k"], obj["retain"], obj.get("novmap", False),
+                   rows_.replace("+aux", ""), aux=rows_.endswith("+aux"))
     print("observed:", res)
     print("model plan:", plans[(obj["m"], obj["k"], obj["retain"])])
     ok = judge(chk, case, plans[(obj["m"], obj["k"], obj["retain"])], obj.get("novmap", False), res,
